@@ -337,7 +337,9 @@ class C07(Check):
                 r.fail("importer-instance-history", f"importer-instance-history|window {toks[1]}",
                        f"one ASTToPymbolic instance imported the {n} importable strings of this "
                        f"window one after the other (every parse tree dropped after use); for at "
-                       f"least one of them its result differs from a fresh instance's")
+                       f"least one of them its result differs from a fresh instance's, or a user "
+                       f"subclass overriding map_Name (used in between) did not return the stock "
+                       f"result with its own names, or the stock importer changed after that")
             return r
         s = join(mode, toks)
         for kind, sig, detail in analyse(s, toks, r):
@@ -427,10 +429,40 @@ def _node_kind(n):
     return type(n).__name__
 
 
+def _prefix_names(m):
+    if isinstance(m, tuple):
+        if len(m) == 2 and m[0] == "v" and isinstance(m[1], str):
+            return ("v", "ns_" + m[1])
+        return tuple(_prefix_names(c) for c in m)
+    if isinstance(m, list):
+        return [_prefix_names(c) for c in m]
+    return m
+
+
+_USER_IMPORTER = []
+
+
+def user_importer_class():
+    """A user's importer: the stock one with every name put into a namespace."""
+    if not _USER_IMPORTER:
+        import pymbolic.primitives as prim
+        from pymbolic.interop.ast import ASTToPymbolic
+
+        class PrefixingImporter(ASTToPymbolic):
+            def map_Name(self, expr):
+                return prim.Variable("ns_" + expr.id)
+
+        _USER_IMPORTER.append(PrefixingImporter)
+    return _USER_IMPORTER[0]
+
+
 def importer_instance_history(strings, r=None):
-    """-> (importable strings, number for which the long-lived instance disagrees with a fresh one)"""
+    """-> (importable strings, number for which the long-lived instance disagrees with a fresh one
+    or a user subclass of the importer, used in between, does not give the stock result with its
+    own name handling applied)"""
     from pymbolic.interop.ast import ASTToPymbolic
     shared = ASTToPymbolic()
+    user = user_importer_class()
     n = bad = 0
     for s in strings:
         try:
@@ -451,6 +483,20 @@ def importer_instance_history(strings, r=None):
         if r is not None:
             r.evals += 1
         if got != want:
+            bad += 1
+            continue
+        # importer classes do not share state: a user subclass (alternately a fresh and ... the
+        # stock importer before and after it) sees its own handlers, the stock one its own
+        try:
+            sub = from_pm(user()(ast.parse(s, mode="eval").body))
+            again = from_pm(ASTToPymbolic()(ast.parse(s, mode="eval").body))
+        except RecursionError:
+            raise
+        except Exception as e:  # noqa: BLE001
+            sub = again = ("raised", type(e).__name__)
+        if r is not None:
+            r.evals += 2
+        if sub != _prefix_names(want) or again != want:
             bad += 1
     return n, bad
 
